@@ -107,7 +107,7 @@ const prelude = `(declare-fun alen ((_ BitVec 64)) (_ BitVec 64))
 (declare-fun uf_oncurve ((_ BitVec 64) (_ BitVec 528) (_ BitVec 528)) Bool)`
 
 // transcripts for cross-checking keep the first crossLimit check-sat queries of each worker
-const crossLimit = 4000
+const crossLimit = 2000
 
 func (s *Solver) Send(line string) {
 	s.in.WriteString(line)
